@@ -3,7 +3,7 @@ from common import T_COMMON
 CFG = dict(
     modules=["PolyVerif.Props.C06", "PolyVerif.Props.C06Scene"],
     # property theorems (audited); scene_* quantify over EVERY well-formed scene, gltf_* over every admissible write sequence
-    theorems=["scene_inv", "scene_valid_low",
+    theorems=["scene_inv", "scene_valid_low", "gltf_refs_in_range_partial", "gltf_node_trs",
               "gltf_bytesWritten_eq_len", "gltf_views_tile", "gltf_accessor_fits", "gltf_minmax",
               "gltf_decode_image", "gltf_decode_indices", "gltf_index_width",
               "glb_frame_length", "glb_frame", "glb_frame_bin",
@@ -11,7 +11,8 @@ CFG = dict(
     # helper lemmas the above rest on (kernel-checked with the module, not counted as obligations)
     helper_theorems=["leVal_leBytes", "decodeN_encodeComps", "isMinOf_fold", "isMaxOf_fold", "tiles_append", "tiles_inside",
                      "tiles_disjoint", "decodeAcc_append", "accOK_append", "accOK_new_vec", "boundsOK_vec", "inv_step", "inv_run",
-                     "inv_addMesh", "inv_addInstances", "inv_addModel", "lowEq_addMaterial", "lowEq_addTexture"],
+                     "inv_addMesh", "inv_addInstances", "inv_addModel", "lowEq_addMaterial", "lowEq_addTexture",
+                     "addMaterial_refs", "addMesh_refs", "addInstances_refs", "addModel_refs", "addLight_refs", "mrefs_mono"],
     streams=[dict(name="c06", n=dict(quick=150, thorough=15000))],
     trusted=T_COMMON + [
         "hand-written model PolyVerif/Model/Gltf.lean of formats/gltf/{writer,write,model,model_trackers}.go, tied by exact comparison of the parsed document, the buffer bytes and the GLB file bytes (stream c06)",
@@ -19,10 +20,12 @@ CFG = dict(
         "float64→float32 narrowing: Lean Float.toFloat32 in the driver vs Go float32(x), compared bit-for-bit through the buffer bytes",
         "colour factors roundFloat(c/65535,3) computed at Float in the model, compared bit-for-bit"],
     residue=[
-        "scene-level lifting: the invariant theorems are proved for ANY admissible sequence of the exported low-level writes (WriteVector2/3/4, WriteIndices), which is what AddScene issues; that AddMesh/AddMaterial/AddTexture/AddScene issue exactly such a sequence and keep every mesh/material/texture/image/sampler/node reference in range (gltf_refs_in_range), the dedup laws (gltf_dedup_consistent), node TRS (gltf_node_trs) and extension declaration (gltf_extensions_declared) are NOT theorems: they are corresponded exactly (c06.doc) and checked by the oracles c06.holds.valid / decode / dedup on the implementation's output",
+        "C06_scene_full (def in Props/C06Scene.lean: for every accepted scene valid ∧ carriesScene ∧ dedupOK of the written document, i.e. the three oracle predicates) is NOT proved as a whole. Proved parts, for EVERY scene: scene_inv + scene_valid_low (refinement: AddScene issues only admissible writes; buffer length, bufferViews inside/disjoint, every accessor reads an existing view with count·elemSize = view length, data inside the buffer, declared min/max = bounds of the stored values), gltf_refs_in_range_partial (primitive → attribute/index accessors and material; node → mesh, instancing accessors, light; scene → nodes; material/mesh/written-mesh trackers in range), gltf_node_trs (name and TRS moved verbatim).",
+        "not theorems (corresponded exactly by c06.doc and oracle-checked by c06.holds.valid/.decode/.dedup on every run): material → texture → image/sampler references in range (the rest of gltf_refs_in_range); per-primitive equal attribute counts and index VALUES < vertex count at scene level (primOK: at write level they follow from gltf_decode_indices + the guard i < attrSize, the scene-level bookkeeping through the attribute map is not proved); extensions in use are declared (gltf_extensions_declared); dedup consistency (gltf_dedup_consistent: same mesh id + material ⇒ same mesh index, equal-by-value materials ⇒ one entry, same index ⇒ equal observable data); instance transforms decode to the model's (carriesScene; at write level gltf_decode_image)",
         "C06_alignment (full clause) is false of the code: gltf_alignment_counterexample; proved part gltf_alignment_partial (all vectors FLOAT, every index block a multiple of 4 bytes)",
-        "glb_frame reads the fixed header words and the JSON chunk back from the bytes; the BIN chunk is stated structurally (drop (20+jl) = glbBinPart bin, by definition chunk header ++ buffer ++ zero padding) rather than through readFrame/frameOK",
-        "bounds of data containing ±Inf (the writer's MaxFloat64 sentinel survives +Inf) and VEC4 data containing NaN: excluded by VecsOK; encoding/json refuses such documents (model: marshalOK), corresponded as 'err'",
+        "glb_frame / glb_frame_bin read every header and chunk word back from the bytes (readWord); the equivalent statement through readFrame/frameOK (what c06.holds.frame evaluates on the implementation) is not proved for the model",
+        "VecsOK excludes ±Inf (the writer's MaxFloat64 sentinel survives +Inf) and NaN in FLOAT VEC4 (Go's math.Min/Max would make the bound NaN; the model's order-based fold does not reproduce that): encoding/json refuses such documents (model: marshalOK); NaN in VEC2/VEC3 is modelled (skipped) and covered by gltf_minmax",
+        "byte-typed (Joint) vectors: Go computes min/max on the float64 value v while it stores uint8(v); the model identifies both, i.e. assumes integer values in [0,255] (for other values the declared bounds are not the bounds of the stored bytes — outside the modelled domain, not generated)",
         "JSON text layout; skins and animations; base64 (std); Float1 attributes (never written by AddMesh); material Extras; lights' payload beyond count/position; topologies other than triangle/point (written without a mode)"],
     assumptions=["pointer identity of meshes/textures = position in the scene's heap (one immutable object per pointer during a write)",
                  "byte-typed (Joint) attribute values are integers in [0,255]"],
